@@ -210,7 +210,8 @@ class DtdMapper:
             params.update(**kwargs)
             cls.build_content_tree(target, content, **params)
         else:  # content_type == DtdContentType.PCDATA:
-            restrictions = cls.build_restrictions(content.occur, **kwargs)
+            # (#PCDATA)* is still a single text value
+            restrictions = cls.build_restrictions(DtdContentOccur.ONCE, **kwargs)
             cls.build_value(target, restrictions)
 
     @classmethod
